@@ -443,7 +443,7 @@ func (s *UtxoStore) VerifWF() bool { return s != nil && s.bucketMeta != nil }
 // ---------------------------------------------------------------------------------------------
 // L4 (C01) / V1-V2 (C17): classification of a coin at query time.
 //@ func (*UtxoStore).ScriptAddressBalance
-//@   props C01 C17 C19
+//@   props C01 C10 C17 C19
 //@   requires s != nil && s.bucketMeta != nil && s.ksmgr != nil && tx != nil && txpool != nil
 //@   requires ghostOf[*keystore.AddrManager]("curKS", s.ksmgr) != nil
 //@   modifies gmap("iterkey")
@@ -457,10 +457,10 @@ func (s *UtxoStore) VerifWF() bool { return s != nil && s.bucketMeta != nil }
 // L4 completeness half: the guards that decide whether a read credit is counted are exactly the specification
 // (confirmations against minConf; consensus spendability and mempool state; the class tests).  Together with the
 // per-iteration clauses above: a credit is added to a column exactly when the rule says so.
-//@   if#10 guard[C01] when cred.block.Height <= syncHeight && syncHeight < 18446744073709551615 :: mathint(syncHeight) - mathint(cred.block.Height) + 1 >= mathint(minConf)
-//@   if#12 guard[C01] when cred.block.Height <= syncHeight && syncHeight < 18446744073709551615 :: consensusSpendable(cred.maturity, cred.block.Height, syncHeight) && !poolSpent(txpool, cred)
-//@   if#13 guard[C01] cred.flags.Class == ClassBindingUtxo
-//@   if#15 guard[C01] cred.flags.Class == ClassStakingUtxo
+//@   if#10 guard[C01,C10] when cred.block.Height <= syncHeight && syncHeight < 18446744073709551615 :: mathint(syncHeight) - mathint(cred.block.Height) + 1 >= mathint(minConf)
+//@   if#12 guard[C01,C10] when cred.block.Height <= syncHeight && syncHeight < 18446744073709551615 :: consensusSpendable(cred.maturity, cred.block.Height, syncHeight) && !poolSpent(txpool, cred)
+//@   if#13 guard[C01,C10] cred.flags.Class == ClassBindingUtxo
+//@   if#15 guard[C01,C10] cred.flags.Class == ClassStakingUtxo
 //@   loop#2 step[C17] has(ret, strOf(cred.scriptHash)) && amt(curBal(ret, cred).Spendable) != old(amt(ret[cur(strOf(cred.scriptHash))].Spendable)) ==> consensusSpendable(cred.maturity, cred.block.Height, syncHeight)
 //@   loop#2 step[C17] has(ret, strOf(cred.scriptHash)) && amt(curBal(ret, cred).WithdrawableStaking) != old(amt(ret[cur(strOf(cred.scriptHash))].WithdrawableStaking)) ==> consensusSpendable(cred.maturity, cred.block.Height, syncHeight)
 //@   loop#2 step[C17] has(ret, strOf(cred.scriptHash)) && amt(curBal(ret, cred).WithdrawableBinding) != old(amt(ret[cur(strOf(cred.scriptHash))].WithdrawableBinding)) ==> consensusSpendable(cred.maturity, cred.block.Height, syncHeight)
@@ -579,12 +579,14 @@ func (s *UtxoStore) VerifWF() bool { return s != nil && s.bucketMeta != nil }
 // ---- C01 (rollback lemma): when a rolled-back transaction's debit is undone, the unspent marker re-created for the
 // credit it had spent carries the block of that credit (bytes 32..72 of the credit key), never anything else
 //@ func (*TxStore).Rollback
-//@   props C01 C09
+//@   props C01 C09 C12
 //@   nopanic off
 //@   requires s != nil && s.bucketMeta != nil && s.ksmgr != nil && s.utxoStore != nil && tx != nil
 //@   modifies *
 //@   only fetchNsUnspentValueFromRawCredit valueUnmined putRawUnmined FetchBucket
 //@   dead returns 1
+//@   at "err = deleteRawAddressRecord(nsAddresses, addrKey)"#1 assert[C12] readAddressHeight(addrVal) == curHeight
+//@   at "err = deleteRawAddressRecord(nsAddresses, addrKey)"#2 assert[C12] readAddressHeight(addrVal) == curHeight
 //@   at "err = putRawUnmined(nsUnmined, txHash[:], unminedVal)" assert[C09] len(unminedVal) >= 8 && strOf(unminedVal[8:]) == ghosts("txDBBytes", &rec.MsgTx)
 //@   at "err = putRawUnspent(nsUnspent, canonicalUnspentKey(ma.Account(), &prevOut.Hash, prevOut.Index), unspentVal)" assert[C01] len(unspentVal) == 40 && len(credKey) >= 72 && bytesEq(unspentVal, 0, credKey, 32, 40)
 
